@@ -585,10 +585,10 @@ class Machine(Interp):
                     if isinstance(x, int):
                         return x
                     if isinstance(x, Sym) and x.k == "int":
-                        for c in range(-2, 9):
+                        for c in range(-2, 41):
                             if self.branch(x.t == c, node):
                                 return c
-                        raise Unsupported("range bound outside [-2, 8] in bounded mode", node)
+                        raise Unsupported("range bound outside [-2, 40] in bounded mode", node)
                     raise Unsupported("range bound %r" % (x,), node)
 
                 return list(range(conc(it.lo), conc(it.hi), it.step))
